@@ -160,39 +160,37 @@ Theorem c16_canonical_v6_python : forall e ws,
   length ws = 8%nat -> Forall (fun w => w < 65536) ws ->
   py_ip_str (print_v6 e ws) = Some (print_v6 false ws).
 Proof.
-  intros e ws Hl Hw. apply py_ip_str_v6; [exact (print_v6_v6ch e ws Hw)|].
+  intros e ws Hl Hw. apply py_ip_str_v6_any.
   destruct e; [exact (proj1 (v6_print_parse_full ws Hl Hw))|exact (proj2 (v6_print_parse_full ws Hl Hw))].
 Qed.
 Print Assumptions c16_canonical_v6_python.
 
 (* (4d) Canonical IPv6, as (4) for IPv4: every text the IPv6 reader accepts
-        resolves to glibc's canonical text of the eight words it denotes; that
+        (it always passes the idna codec: at most ten short fields) resolves to glibc's canonical text of the eight words it denotes; that
         text is read back as the same words, is mapped by Python's ipaddress to
         Python's canonical text of the same words, and is a fixed point of the
         resolver. *)
 Theorem c16_canonical_v6 : forall rs s ws,
-  parse_v6 s = Some ws -> idna_labels_ok (split_on "." s) = true ->
+  parse_v6 s = Some ws ->
   getaddrinfo rs s = Ok [(AF_INET6, print_v6 true ws)] /\
   length ws = 8%nat /\ Forall (fun w => w < 65536) ws /\
   parse_v6 (print_v6 true ws) = Some ws /\
   py_ip_str (print_v6 true ws) = Some (print_v6 false ws) /\
   getaddrinfo rs (print_v6 true ws) = Ok [(AF_INET6, print_v6 true ws)].
-Proof. intros rs s ws. exact (v6_canonical s ws rs). Qed.
+Proof. intros rs s ws. exact (v6_canonical_literal s ws rs). Qed.
 Print Assumptions c16_canonical_v6.
 
 (* (2''') a numeric IPv6 host in ANY spelling the reader accepts (compressed or
-          not, leading zeros, upper case, dotted tail): glibc's canonical text of
-          its value, family AF_INET6, width/ports as given. *)
+          not, leading zeros, upper case, dotted tail — such a text is always
+          in the class [\w:.]+ with two ':'): glibc's canonical text of its
+          value, family AF_INET6, width/ports as given. *)
 Theorem c16_subnet_roundtrip_numeric_v6 : forall rs sp ws,
-  host6_ok (sp_host sp) = true -> spec_ok sp = true -> spec_short sp = true ->
-  parse_v6 (sp_host sp) = Some ws -> idna_labels_ok (split_on "." (sp_host sp)) = true ->
+  spec_ok sp = true -> spec_short sp = true ->
+  parse_v6 (sp_host sp) = Some ws ->
   (match sp_width sp with None => True | Some d => dec_val d <= 128 end) ->
   parse_subnetport rs (render6 sp) =
   Ok [(AF_INET6, print_v6 true ws, spec_width_val AF_INET6 sp, spec_fport_val sp, spec_lport_val sp)].
-Proof.
-  intros rs sp ws Hh Hok Hs Hp Hi Hw.
-  exact (subnet_roundtrip6 rs sp AF_INET6 (print_v6 true ws) Hh Hok Hs (getaddrinfo_v6 rs _ ws Hp Hi) Hw).
-Qed.
+Proof. exact subnet_roundtrip_numeric6. Qed.
 Print Assumptions c16_subnet_roundtrip_numeric_v6.
 
 (* (5) Listen / --to-ns specifications. *)
@@ -288,21 +286,19 @@ Corollary c16_hostport_port_full : forall h p,
 Proof. intros h p Hh _. exact (host_part_name_port h p Hh). Qed.
 Print Assumptions c16_hostport_port_full.
 
-(* an IPv6 literal as the remote host, in any lower-case spelling t the reader
-   accepts (alphabet 0-9 a-f ':' '.'): without a port it is given bare, with a
-   port it must be bracketed; either way the host returned is Python's
-   canonical text of the words it denotes. *)
+(* an IPv6 literal as the remote host, in ANY spelling t the reader accepts
+   (compressed or not, leading zeros, upper case, dotted tail): without a port
+   it is given bare, with a port it must be bracketed; either way the host
+   returned is Python's canonical text of the words it denotes. *)
 Theorem c16_hostport_v6 : forall t ws,
-  forallb is_v6ch t = true -> parse_v6 t = Some ws ->
-  host_part t = Ok (None, Some (print_v6 false ws)).
-Proof. exact host_part_v6. Qed.
+  parse_v6 t = Some ws -> host_part t = Ok (None, Some (print_v6 false ws)).
+Proof. exact host_part_v6_any. Qed.
 Print Assumptions c16_hostport_v6.
 
 Theorem c16_hostport_v6_port : forall t ws p,
-  forallb is_v6ch t = true -> parse_v6 t = Some ws ->
-  digits_ok p = true -> short p = true -> dec_val p <= 65535 ->
+  parse_v6 t = Some ws -> digits_ok p = true -> short p = true -> dec_val p <= 65535 ->
   host_part ("[" :: t ++ "]" :: ":" :: p) = Ok (Some (dec_val p), Some (print_v6 false ws)).
-Proof. exact host_part_bracket_port. Qed.
+Proof. exact host_part_bracket_port_any. Qed.
 Print Assumptions c16_hostport_v6_port.
 
 (* (7) An option given on the command line overrides the same option taken
@@ -388,14 +384,14 @@ Example c16_ex_numeric_v6 :
   let sp := mkSpec (B "2001:DB8:0:0:ABCD::0.0.18.52"%string) (Some (B "64"%string)) (Some (B "443"%string, None)) in
   host6_ok (sp_host sp) = true /\ spec_ok sp = true /\ spec_short sp = true /\
   parse_v6 (sp_host sp) = Some [8193; 3512; 0; 0; 43981; 0; 0; 4660] /\
-  idna_labels_ok (split_on "." (sp_host sp)) = true /\
   parse_subnetport no_names (render6 sp) = Ok [(AF_INET6, B "2001:db8::abcd:0:0:1234"%string, 64, 443, 443)].
 Proof. vm_compute. repeat split. Qed.
 
 Example c16_ex_hostport_v6 :
-  let t := B "2001:db8:0:0:abcd::1234"%string in
-  forallb is_v6ch t = true /\ parse_v6 t = Some [8193; 3512; 0; 0; 43981; 0; 0; 4660] /\
-  host_part (B "[2001:db8:0:0:abcd::1234]:2222"%string) = Ok (Some 2222, Some (B "2001:db8::abcd:0:0:1234"%string)) /\
+  let t := B "2001:DB8:0:0:abcd::0.0.18.52"%string in
+  parse_v6 t = Some [8193; 3512; 0; 0; 43981; 0; 0; 4660] /\
+  host_part t = Ok (None, Some (B "2001:db8::abcd:0:0:1234"%string)) /\
+  host_part (B "[2001:DB8:0:0:abcd::0.0.18.52]:2222"%string) = Ok (Some 2222, Some (B "2001:db8::abcd:0:0:1234"%string)) /\
   name4_ok (B "Under_Score-1.LAN"%string) = true /\
   host_part (B "Under_Score-1.LAN:22"%string) = Ok (Some 22, Some (B "under_score-1.lan"%string)) /\
   host_part (B "10.0.0.1:22"%string) = Ok (Some 22, Some (B "10.0.0.1"%string)).
